@@ -34,11 +34,11 @@ struct Run{
   SimSolver* live; std::vector<SimSolver*> spares;
   std::vector<Mat> ref; std::vector<double> refs;        // reference state per (ix,irho) and (ix,is)
   std::vector<double> grid;
-  double t_ini,sum_dt; long steps_total; StepCfg sc; bool trace_ops; std::string prop;
+  double acc_tol; double t_ini,sum_dt; long steps_total; StepCfg sc; bool trace_ops; std::string prop;
   uint64_t shape; bool nontrivial; double sim_time; long applies_total;
   unsigned nx,nsun,nrhos,nsc;
 
-  Run():plan(0),live(0),t_ini(0),sum_dt(0),steps_total(0),trace_ops(false),shape(1469598103934665603ULL),nontrivial(false),sim_time(0),applies_total(0),nx(0),nsun(0),nrhos(0),nsc(0){}
+  Run():plan(0),live(0),acc_tol(0),t_ini(0),sum_dt(0),steps_total(0),trace_ops(false),shape(1469598103934665603ULL),nontrivial(false),sim_time(0),applies_total(0),nx(0),nsun(0),nrhos(0),nsc(0){}
   void shp(const std::string& s){ shape=fnv1a(s,shape); }
   void shp(long v){ shape=fnv1a(&v,sizeof v,shape); }
 
@@ -51,7 +51,7 @@ struct Run{
   void configure(const Json& cfg,bool first){
     nx=(unsigned)std::max(1LL,std::min(9LL,cfg["nx"].as_int(2))); nsun=(unsigned)std::max(2LL,std::min(6LL,cfg["nsun"].as_int(3)));
     nrhos=(unsigned)std::max(1LL,std::min(3LL,cfg["nrhos"].as_int(1))); nsc=(unsigned)std::max(0LL,std::min(3LL,cfg["nscalars"].as_int(0)));
-    t_ini=cfg["t0"].as_num(0.0); sum_dt=0; steps_total=0;
+    t_ini=cfg["t0"].as_num(0.0); sum_dt=0; steps_total=0; acc_tol=0;
     prob.build((uint64_t)cfg["seed"].as_int(1),nx,nsun,nrhos,nsc);
     c.prob=&prob;
     (void)first;
@@ -176,6 +176,7 @@ struct Run{
     if(sc.is_sim()||dt==0){
       // integration accuracy of the seeded tableaux is not judged; continue from the library's own state
       for(unsigned ix=0;ix<nx;ix++){ for(unsigned ir=0;ir<nrhos;ir++) ref[ix*nrhos+ir]=from_components(nsun,live->rho_ptr(ix,ir)); for(unsigned is=0;is<nsc;is++) refs[ix*nsc+is]=live->scal_ptr(ix)[is]; }
+      acc_tol=0;
       return;
     }
     double ym=ymax(),tol;
@@ -183,7 +184,8 @@ struct Run{
     // modest amplification. fixed: classical global error bound of an order-p method. Both are deliberately generous: a sign, index or time error is O(0.1..1).
     if(sc.adaptive) tol=1000.0*(double)std::max(1L,c.napply)*(sc.abs+sc.rel*ym)+1e-9*(ym+1);
     else{ double L=prob.lambda(t_before,t_before+dt)+4.0,h=dt/sc.nsteps; tol=100.0*(dt+1)*L*std::pow(L*h,sc.order())*(ym+1)+1e-9; }
-    if(tol>1e-3){ c.ctr->add("probe_closed_form_skipped_loose_tolerance"); for(unsigned ix=0;ix<nx;ix++){ for(unsigned ir=0;ir<nrhos;ir++) ref[ix*nrhos+ir]=from_components(nsun,live->rho_ptr(ix,ir)); for(unsigned is=0;is<nsc;is++) refs[ix*nsc+is]=live->scal_ptr(ix)[is]; } return; }
+    tol+=acc_tol; acc_tol=tol;      // the reference is advanced piecewise: errors of earlier segments are still in the library's state
+    if(tol>1e-3){ acc_tol=0; c.ctr->add("probe_closed_form_skipped_loose_tolerance"); for(unsigned ix=0;ix<nx;ix++){ for(unsigned ir=0;ir<nrhos;ir++) ref[ix*nrhos+ir]=from_components(nsun,live->rho_ptr(ix,ir)); for(unsigned is=0;is<nsc;is++) refs[ix*nsc+is]=live->scal_ptr(ix)[is]; } return; }
     c.ctr->add("closed_form_comparisons");
     for(unsigned ix=0;ix<nx;ix++){
       for(unsigned ir=0;ir<nrhos;ir++){
@@ -398,7 +400,8 @@ struct SolverEngine: Engine{
     bool adaptive=(k==5)?true:r.chance(k==6?0.6:0.5);
     o["adaptive"]=adaptive;
     static const double eps[]={1e-9,1e-10,1e-10,1e-10,1e-12,1e-9,1e-6};
-    o["abs"]=eps[k]; o["rel"]=eps[k];
+    // fixed stepping through a driver that owns a controller fails (GSL_FAILURE) whenever a step misses the controller's bounds: keep them loose there
+    o["abs"]=adaptive?eps[k]:0.1; o["rel"]=adaptive?eps[k]:0.1;
     o["h"]=r.chance(0.3)?2.2e-16:(r.chance(0.5)?1e-3:1e-1);
     double L=lambda_hint; unsigned ns;
     if(k==0) ns=(unsigned)std::min(20000.0,std::ceil(dt*L/0.004)+10); else if(k==4) ns=(unsigned)(std::ceil(dt*L/0.15)+10); else if(k==6) ns=(unsigned)r.range(1,12); else ns=(unsigned)(std::ceil(dt*L/0.04)+10);
